@@ -7,6 +7,7 @@ pub fn run(ctx: &Ctx) -> &'static str {
     ctx.assume("the link that received the unique copy is read off the per-link queues and the wire (payloads are unique); extra copies are allowed only on stall-gated connected links");
     for (file, body) in ctx.replay_files() {
         let done = ctx.replay_case::<decide::Case, _>("decisions", &file, &body, |c, o| decide::check(c, o, Which::C04, ctx));
+        let done = done || ctx.replay_case::<crate::props::faultsim::Case, _>("fault-histories", &file, &body, |c, o| crate::props::faultsim::check(c, o, crate::props::faultsim::Which::C04, ctx));
         if !done {
             eprintln!("replay {}: unknown part", file.display());
         }
@@ -21,6 +22,14 @@ pub fn run(ctx: &Ctx) -> &'static str {
         ctx.tier.pick(8_000, 200_000),
         || decide::strategy(mo),
         |_| |c: &decide::Case, o: &mut Obs| decide::check(c, o, Which::C04, ctx),
+    );
+    let horizon = ctx.tier.pick(50, 200);
+    ctx.explore(
+        "fault-histories",
+        "the C08 fault simulation (cooperative receiver, generated fault schedules, traffic flowing): the eligibility predicate is evaluated at the moment each unique datagram is queued; non-trivial = a decision taken while a registering / disconnected / stall-gated link was present",
+        ctx.tier.pick(250, 8_000),
+        || crate::props::faultsim::strategy(horizon),
+        |_| |c: &crate::props::faultsim::Case, o: &mut Obs| crate::props::faultsim::check(c, o, crate::props::faultsim::Which::C04, ctx),
     );
     "exploration"
 }
